@@ -1599,7 +1599,8 @@ class Alarm(Component):
         if trigger is None:
             return "START"
         # unquoted parameter values are case-insensitive (RFC 5545, 2): RELATED=end is END
-        return trigger.params.get("RELATED", "START").upper()
+        related = trigger.params.get("RELATED", "START")
+        return related.upper() if isinstance(related, str) else related
 
     @TRIGGER_RELATED.setter
     def TRIGGER_RELATED(self, value: str):
